@@ -383,6 +383,18 @@ def run(ctx, rep):
             rep.ok("R12.4", nm_, "every write (%d events, %d nested encoders) is matched by a contribution to the returned count" % (len(wev), len(nested)),
                    where=g.where(g.entry))
 
+    # ---------------- R12.7 -------------------------------------------------------------
+    rep.rule("R12.7", "the decoder consumes its input only through exact reads (read_uN / read_exact / nested Decode): a single `Read::read` "
+                      "may legally return fewer bytes than asked for, so decoding would depend on how the reader slices the bytes")
+    partial = [n for n in Pd.calls(r"io::Read::(read|read_vectored|read_buf|read_to_end|read_to_string|bytes|take)$") if not gd.term(n).get("exp")]
+    for n in partial:
+        rep.violation("R12.7", "decode|partial-read:%s" % cpath(gd.term(n)).split("::")[-1], cpath(gd.term(n)),
+                      "the decoder uses a partial read: for a reader that returns fewer bytes per call (a BufReader boundary, a chained reader) "
+                      "the bytes the encoder produced no longer decode to the record - and a spurious UnexpectedEof at a buffer boundary is "
+                      "taken for a torn tail by recovery", where=gd.where(n))
+    if not partial:
+        rep.ok("R12.7", "WALRecord::decode", "only exact reads", where=gd.where(gd.entry))
+
     # ---------------- R12.5 -------------------------------------------------------------
     c09.r09_1_2(ctx, _Rename(rep))
 
